@@ -17,6 +17,7 @@ out = ["## 11. Seeded breaking changes: which checks catch which changes", "",
 "`seeded/<id>/` (patch.diff, demo, NOTES.md, meta.json). `./ofv seeded` re-applies every patch to a scratch",
 "worktree and re-runs the listed quick checks against that copy (`OFV_REPO`), so the sensitivity of the",
 "machinery is itself regression-tested. None of these changes is ever committed to `/repo`.", "",
+"%d changes are kept, from nine rounds (suffix a..i; each round told the sub-agent what the earlier rounds had done and asked for a different place and trigger). %d of them were missed by the check of their own property when first tried (a few were seen by the check of another property); every one is caught now, by the workload additions listed after the table. What the rounds taught is summarised in 10.6: random sampling finds what is dense, everything on a boundary, in a rare order, in the caller's environment or in the history of the process has to be constructed on purpose." % (len(rows), sum(1 for r in rows if r[4].startswith("first run: missed"))), "",
 "| id | breaks | what it needs to manifest | caught by (quick tier) |", "|---|---|---|---|"]
 for r in rows:
     out.append("| %s | %s | %s | %s |" % (r[0], r[1], r[2].replace("|", "/"), r[3]))
